@@ -138,6 +138,15 @@ def gen(rng, tier):
                 pl = b"" if j % 3 else b"%d" % j
                 frames += ws.frame(ws.OP_PING, pl)
                 pings.append((nmsg + 0.75, pl))
+        # (HTTP/2 carrier) many tiny DATA frames, each padded to the hilt: far more padding than a flow-control window in all
+        padded_tiny = carrier == "h2" and rng.random() < 0.12
+        if padded_tiny:
+            j = 0
+            while len(frames) < 420:
+                pl = b"pt%d" % j
+                j += 1
+                frames += ws.frame(ws.OP_PING, pl)
+                pings.append((nmsg + 0.6, pl))
         if ping_close:
             for j in range(rng.choice([1, 2, 5])):
                 pl = b"pc%d-%d" % (i, j)
@@ -188,16 +197,19 @@ def gen(rng, tier):
             q = []
             off = 0
             fr = bytes(frames)
+            padding = rng.choice([0, 0, 0, 7, 255]) if not padded_tiny else 255
             while off < len(fr):
-                n = rng.choice([1, 2, 7, 100, 1000, 16384])
+                n = rng.choice([1, 2, 7, 100, 1000, 16384]) if not padded_tiny else rng.choice([1, 2])
                 piece = fr[off:off + n]
-                q.append([fb.data(1, piece), len(piece)])
+                # (padding is flow-controlled like the data it accompanies: the server has to give it back with the rest)
+                pad = padding if len(piece) + padding + 1 <= 16384 else 0
+                q.append([fb.data(1, piece, pad=pad), len(piece) + (pad + 1 if pad else 0)])
                 off += n
             rspec["uploads"] = {1: q}
             rspec["uploads_wait"] = True
             client = [["feed", pre], ["settle"], ["react", "pump"], ["settle"]] + ([["advance", 1.3], ["settle"]] if keepalive_pings else []) + \
                      [["feed", fb.data(1, closef)], ["settle"]]
-            yield {"family": "h2." + ("deflate" if deflate else "plain"), "backends": ["asyncio", "trio"],
+            yield {"family": "h2." + ("deflate" if deflate else "plain") + (".padded-tiny" if padded_tiny else ""), "backends": ["asyncio", "trio"],
                    "config": config, "conn": {}, "apps": apps, "client": client, "reactor": rspec,
                    "truth": truth, "sched": {"seed": rng.randrange(1 << 30)}, "horizon": 100.0}
 
